@@ -333,6 +333,53 @@ func buildCorpus() []*vcase {
 	add("control", func(a *asm) { a.op(opcode.PUSHT).pushData([]byte{0xe2, 0x82, 0xac}).op(opcode.ASSERTMSG) })
 	add("control", func(a *asm) { a.raw(byte(opcode.SYSCALL), 1, 2, 3, 4) })
 	add("control", func(a *asm) { a.raw(byte(opcode.CALLT), 0, 0) })
+	// ---- CONVERT / ISTYPE table: every kind of item (with content variants) x every type byte
+	b32 := make([]byte, 32)
+	b32[0] = 1
+	vals := []func(a *asm){
+		func(a *asm) { a.op(opcode.PUSHNULL) },
+		func(a *asm) { a.op(opcode.PUSHT) },
+		func(a *asm) { a.op(opcode.PUSHF) },
+		func(a *asm) { a.op(opcode.PUSH0) },
+		func(a *asm) { a.op(opcode.PUSH1) },
+		func(a *asm) { a.op(opcode.PUSHM1) },
+		func(a *asm) { a.pushInt(minI) },
+		func(a *asm) { a.pushInt(maxI) },
+		func(a *asm) { a.pushData([]byte{}) },
+		func(a *asm) { a.pushData([]byte{0}) },
+		func(a *asm) { a.pushData([]byte{1}) },
+		func(a *asm) { a.pushData([]byte{0x80}) },
+		func(a *asm) { a.pushData(b32) },
+		func(a *asm) { a.pushData(zero32) },
+		func(a *asm) { a.pushData(make([]byte, 33)) },
+		func(a *asm) { a.pushData([]byte{}).convert(tBuffer) },
+		func(a *asm) { a.pushData([]byte{0}).convert(tBuffer) },
+		func(a *asm) { a.pushData([]byte{0xff}).convert(tBuffer) },
+		func(a *asm) { a.pushData(b32).convert(tBuffer) },
+		func(a *asm) { a.pushData(make([]byte, 33)).convert(tBuffer) },
+		func(a *asm) { a.op(opcode.NEWARRAY0) },
+		func(a *asm) { a.op(opcode.PUSH1, opcode.PUSH2, opcode.PUSH2, opcode.PACK) },
+		func(a *asm) { a.op(opcode.NEWSTRUCT0) },
+		func(a *asm) { a.op(opcode.PUSH1, opcode.PUSH2, opcode.PUSH2, opcode.PACKSTRUCT) },
+		func(a *asm) { a.op(opcode.NEWMAP) },
+		func(a *asm) { a.op(opcode.PUSH1, opcode.PUSH2, opcode.PUSH1, opcode.PACKMAP) },
+		func(a *asm) { a.raw(byte(opcode.PUSHA), 0, 0, 0, 0) },
+	}
+	for _, mk := range vals {
+		for _, t := range allTypes {
+			mk, t := mk, t
+			// DUP first: the original stays visible next to the converted item (identity vs copy)
+			add("convert", func(a *asm) { mk(a); a.op(opcode.DUP).convert(t) })
+			add("types", func(a *asm) { mk(a); a.raw(byte(opcode.ISTYPE), t) })
+		}
+		mk := mk
+		add("convert", func(a *asm) { mk(a); a.op(opcode.NOT) })
+		add("convert", func(a *asm) { mk(a); a.op(opcode.SIZE) })
+		add("convert", func(a *asm) { mk(a); a.op(opcode.NZ) })
+		add("convert", func(a *asm) { mk(a); a.op(opcode.ISNULL) })
+		add("convert", func(a *asm) { mk(a); a.op(opcode.DUP, opcode.EQUAL) })
+		add("convert", func(a *asm) { mk(a); a.raw(byte(opcode.JMPIFNOT), 3).op(opcode.PUSH1, opcode.PUSH2) })
+	}
 	// ---- decoding
 	add("decode", func(a *asm) { a.raw(0x06) })
 	add("decode", func(a *asm) { a.raw(byte(opcode.PUSHINT16), 1) })
